@@ -58,6 +58,23 @@ pub fn run(tier: &str, seed: u64, report: &mut Report) {
         // make sure each history also contains: a completed backup, then a backup of the unchanged tree with other options
         steps.push(Step::Backup(gen_params(&mut rng)));
         steps.push(Step::Backup(gen_params(&mut rng)));
+        if h == 0 {
+            // directed: two interruptions in a row — the first killed between creating BANDHEAD and writing it (a
+            // zero-length head: the band cannot be opened), the second after some hunks — then a backup of the
+            // unchanged tree: its basis is the second attempt's hunks and, THROUGH the unopenable band, the last
+            // complete version; every unchanged file must be reused
+            let mk = |name: &str, kind: NodeKind, m: i64| Node { comps: if name.is_empty() { vec![] } else { vec![name.to_string()] }, kind: kind.clone(), mode: if matches!(kind, NodeKind::Dir) { 0o755 } else { 0o644 }, mtime_ns: 1_620_000_000_000_000_000 + m, uid: 0, gid: 0 };
+            let mut t = Tree::default();
+            t.nodes.insert("/".into(), mk("", NodeKind::Dir, 0));
+            for (i, name) in ["a", "b", "c", "d", "e", "f", "g"].iter().enumerate() {
+                t.nodes.insert(format!("/{name}"), mk(name, NodeKind::File(format!("{name}: first content, {i}").into_bytes()), i as i64));
+            }
+            let mut t1 = t.clone();
+            t1.nodes.insert("/d".into(), mk("d", NodeKind::File(b"d: second content, longer than before".to_vec()), 1_000_000_000));
+            let p = BackupParamsLite { hunk: 2, block: 16, cap: 8 };
+            steps = vec![Step::SetTree(t), Step::Backup(p.clone()), Step::SetTree(t1), Step::Backup(p.clone()), Step::BackupCrash(p.clone(), 3, 0), Step::BackupCrash(p.clone(), 1, 2), Step::Backup(p.clone()), Step::Backup(p)];
+            report.hit("directed:unopenable-band-between-interrupted-basis-and-complete-version");
+        }
         let case_id = json!({"case_seed": case_seed, "steps": history_json(&steps)});
         let o = HistOpts { restore_each: false, raw: false, sig: "dedup" };
         let run = run_history(&steps, &o, report, &case_id);
